@@ -30,6 +30,7 @@ import (
 	"strings"
 	"sync"
 	"sync/atomic"
+	"time"
 	"unsafe"
 
 	"github.com/stretchr/testify/mock"
@@ -199,6 +200,9 @@ type probe struct {
 	req chan [2]int // {code of the call in progress, number of records expected}
 	ack chan struct{}
 	n   int // calls entered so far
+	// reads of ACalls() block while AFunc runs (a mock that keeps its lock across the forwarding call): the property does
+	// not forbid that, so the reads are skipped then; found out on the first call with a helper goroutine and a timeout
+	blocked bool
 }
 
 type probePanic struct{}
@@ -269,14 +273,30 @@ func newM2(name string, mk func() interface{}, nilFuncs bool) *mtarget {
 			}
 			if pr := t.pr; pr != nil && m == "A" {
 				pr.n++
-				if !t.listed(t.read(t.aCalls), c, pr.n) {
+				if pr.n == 1 {
+					tried := make(chan struct{})
+					go func() { t.read(t.aCalls); close(tried) }()
+					select {
+					case <-tried:
+					case <-time.After(1 * time.Second):
+						pr.blocked = true
+						stat("probe_reads_block_while_func_runs", 1)
+					}
+				}
+				if pr.blocked {
+					if pr.n%3 == 0 {
+						panic(probePanic{})
+					}
+				} else if !t.listed(t.read(t.aCalls), c, pr.n) {
 					fail(t.name, "probe/inside-func", "unrecorded-in-func",
 						map[string]interface{}{"call": c, "what": "ACalls() read by AFunc itself does not list the call in progress"})
 				}
-				pr.req <- [2]int{c, pr.n}
-				<-pr.ack
-				if pr.n%3 == 0 {
-					panic(probePanic{})
+				if !pr.blocked {
+					pr.req <- [2]int{c, pr.n}
+					<-pr.ack
+					if pr.n%3 == 0 {
+						panic(probePanic{})
+					}
 				}
 			}
 			res := make([]reflect.Value, ft.NumOut())
